@@ -20,14 +20,12 @@ import numpy as np
 
 from . import target
 from ..trace import trace_func, load, sym_params, modules_of
-from ..sym import S, E, TraceError, symbols, Patched, Rec, explore, point
+from ..sym import S, E, TraceError, Patched, Rec, explore, point
 from .. import sym
 from ..model import HEADER
 from .t_rad import RSW, RSP, RSU, RSF, RAD_WRAPPERS, vec2, _Ns, _Interp, _rad_problem_module
 
 RSN = 'exactpack.solvers.radshocks.fnctn_nED'
-RSL = 'exactpack.solvers.radshocks.fnctn_FLD'
-RS2 = 'exactpack.solvers.radshocks.fnctn_2Tie'
 
 
 def _sym_int(x):
@@ -85,9 +83,6 @@ def _utils_stub(cap):
 
         def update_dictionaries(self):
             pass
-
-    def ie_downstream(self):
-        U.IEShockProfile.downstream_equilibrium(self)
 
     class IEC(U.IE_continuousShockProfiles):
         def __init__(self, incoming):
@@ -199,3 +194,301 @@ def _rad_const(name):
 
 for _n in RAD_CONST:
     _rad_const(_n)
+
+
+# =====================================================================================
+# the effect of `_run` on the solver object (C12: "... and nothing else changes with time", ALL times)
+# =====================================================================================
+def _array_items(v):
+    return list(v.reshape(-1)) if isinstance(v, np.ndarray) else None
+
+
+def _holders(s, cls):
+    """(prefix, object) pairs whose attributes count as state of the solver: the solver itself, the private problem
+    object and the stored profile (the wrapper's arrays alias the profile's arrays)"""
+    out = [('', s)]
+    prob = s.__dict__.get('_%s__prob' % cls)
+    if prob is not None:
+        out.append(('prob.', prob))
+        for k, v in vars(prob).items():
+            if k.endswith('_profile'):
+                out.append(('prob.%s.' % k, v))
+    return out
+
+
+def _state(s, cls):
+    st = {}
+    for pre, obj in _holders(s, cls):
+        for k, v in vars(obj).items():
+            st[pre + k] = (v, _array_items(v))
+    return st
+
+
+def _same_items(a, b):
+    if len(a) != len(b):
+        return False
+    for x, y in zip(a, b):
+        if x is y:
+            continue
+        if isinstance(x, E) or isinstance(y, E):
+            if not (isinstance(x, E) and isinstance(y, E) and x.id == y.id):
+                return False
+        elif not (x == y or (x != x and y != y)):
+            return False
+    return True
+
+
+def run_effects(cls, concrete):
+    """one row of the table: trace `setup_solver` and `_run` of the wrapper `cls` on symbolic values (same stand-ins as
+    the RadWrap models of t_rad) and observe what `_run` reads and writes"""
+    from exactpack.base import ExactSolver
+    _, C = load('%s:%s' % (RSW, cls))
+    mods = modules_of(C, [RSP])
+    shims = {'max': sym.sym_builtin_max, 'min': sym.sym_builtin_min, 'float': sym.sym_float,
+             'radshock': _rad_problem_module(), 'np': dict(interp=_Interp())}
+    row = dict(cls=cls, params=list(C.parameters), base=set(), setup=set(), reads=set(), writes=set(), inplace=set(), leaves=0)
+
+    def run():
+        s = C.__new__(C)
+        ExactSolver.__init__(s, **sym_params(C, concrete))
+        before = dict(vars(s))
+        s.setup_solver()
+        row['base'] |= set(before)
+        for k, v in vars(s).items():
+            if k not in before or before[k] is not v:
+                row['setup'].add(k)
+        log = []
+
+        class Spy(C):
+            parameters = C.parameters          # (the metaclass of ExactSolver wants it in the class body)
+
+            def __getattribute__(self, k):
+                log.append(k)
+                return object.__getattribute__(self, k)
+        st0 = _state(s, cls)
+        s.__class__ = Spy
+        try:
+            res = s._run(point(('x',)), S('t'))
+        finally:
+            s.__class__ = C
+        for k in log:
+            if k in ('__class__', '__dict__'):
+                continue
+            if k in s.__dict__ or (hasattr(C, k) and not callable(getattr(C, k))):
+                row['reads'].add(k)
+        st1 = _state(s, cls)
+        for k, (v, items) in st1.items():
+            if k not in st0:
+                row['writes'].add(k)
+                continue
+            v0, items0 = st0[k]
+            if v is not v0:
+                row['writes'].add(k)
+            elif items is not None and not _same_items(items0, _array_items(v)):
+                row['inplace'].add(k)
+            elif items0 is not None and not _same_items(items0, items):
+                row['inplace'].add(k)
+        for k in st0:
+            if k not in st1:
+                row['writes'].add(k)
+        row['leaves'] += 1
+        return res
+
+    import warnings
+    with warnings.catch_warnings():
+        warnings.simplefilter('ignore')
+        with Patched(mods, extra=shims, recorder=Rec):
+            leaves = explore(run)
+    bad = [lf for lf in leaves if lf.kind != 'ok']
+    if bad:
+        raise TraceError('%s._run raised on the symbolic call: %r' % (cls, bad[0].value))
+    _concrete_effects(C, cls, row)
+    return {k: (sorted(v) if isinstance(v, set) else v) for k, v in row.items()}
+
+
+def _float_problem_module():
+    """like t_rad._rad_problem_module, with a stored profile of FLOAT arrays (five nodes)"""
+    R = importlib.import_module(RSP)
+
+    def prof(names):
+        d = {}
+        for j, n in enumerate(names):
+            d[n] = np.array([0.0, 0.1, 0.25, 0.45, 0.7]) * (1.0 + 0.1 * j) + (0.0 if n.startswith('x') else 1.0 + j)
+        d['x'] = np.array([-0.3, -0.1, 0.0, 0.2, 0.5])
+        return _Ns(**d)
+
+    class ED(R.greyED_RadShock):
+        def ED_driver(self):
+            self.ED_profile = prof(RAD_WRAPPERS['RadWrapED'][2])
+
+    class NED(R.greyNED_RadShock):
+        def nED_driver(self, epsilon=1., **k):
+            self.nED_profile = prof(RAD_WRAPPERS['RadWrapNED'][2])
+
+    class SN(R.greySn_RadShock):
+        def Sn_driver(self, Sn=16, f_tol=1.e-4, **k):
+            self.Sn_profile = prof(RAD_WRAPPERS['RadWrapSn'][2])
+
+    class IE(R.Shock_2Tie):
+        def IE_driver(self):
+            self.IE_profile = prof(RAD_WRAPPERS['RadWrapIE'][2])
+    return _Ns(greyED_RadShock=ED, greyNED_RadShock=NED, greySn_RadShock=SN, Shock_2Tie=IE)
+
+
+def _concrete_effects(C, cls, row):
+    """the same observation on FLOAT values with the real NumPy (no symbolic stand-ins, only the ODE drivers are replaced):
+    an in-place operation on an array (`a += t * w`, `a *= -1`, a write through a view such as numpy.flip) really is in place
+    here, whereas on object arrays of symbols NumPy defers `a += <symbol>` to the symbol and builds a new array.  The traced
+    call has a single execution path (`leaves`), so one concrete call visits the same statements."""
+    from exactpack.base import ExactSolver
+    W = importlib.import_module(RSW)
+    saved = W.radshock
+    W.radshock = _float_problem_module()
+    try:
+        s = C.__new__(C)
+        ExactSolver.__init__(s)
+        s.setup_solver()
+        log = []
+
+        class Spy(C):
+            parameters = C.parameters
+
+            def __getattribute__(self, k):
+                log.append(k)
+                return object.__getattribute__(self, k)
+        st0 = {}
+        for pre, obj in _holders(s, cls):
+            for k, v in vars(obj).items():
+                st0[pre + k] = (v, v.copy() if isinstance(v, np.ndarray) else None)
+        s.__class__ = Spy
+        try:
+            for t in (1.0e-9, 0.0, 2.5e-9):
+                s._run(np.array([-0.2, 0.05, 0.3]), t)
+        finally:
+            s.__class__ = C
+    finally:
+        W.radshock = saved
+    for k in log:
+        if k in ('__class__', '__dict__'):
+            continue
+        if k in s.__dict__ or (hasattr(C, k) and not callable(getattr(C, k))):
+            row['reads'].add(k)
+    st1 = {}
+    for pre, obj in _holders(s, cls):
+        for k, v in vars(obj).items():
+            st1[pre + k] = v
+    for k, v in st1.items():
+        if k not in st0:
+            row['writes'].add(k)
+        elif v is not st0[k][0]:
+            row['writes'].add(k)
+        elif isinstance(v, np.ndarray) and not (v.shape == st0[k][1].shape and v.tobytes() == st0[k][1].tobytes()):
+            row['inplace'].add(k)
+    for k in st0:
+        if k not in st1:
+            row['writes'].add(k)
+
+
+class RunEffectsModel(object):
+    """table model (like Tables / Effects): emitted as a Lean list so that statements about it are proved by `decide`"""
+
+    def __init__(self, name='RadRunEffects'):
+        self.name = name
+        self.rows = [run_effects(RAD_WRAPPERS[m][0], RAD_WRAPPERS[m][1]) for m in ('RadWrapED', 'RadWrapNED', 'RadWrapSn', 'RadWrapIE')]
+
+    def real_file(self):
+        def lst(xs):
+            return '[' + ', '.join('"%s"' % x for x in xs) + ']'
+        o = [HEADER, '', 'namespace EPV.Gen.RadRunEffects', '',
+             '/-- what the traced `_run` of one public radiative-shock wrapper does to the solver object.  Attribute names of the',
+             'private problem object and of the stored profile carry the prefixes `prob.` / `prob.<X>_profile.` -/',
+             'structure Row where', '  cls : String',
+             '  params : List String    -- declared parameters (bound by ExactSolver.__init__)',
+             '  base : List String      -- instance attributes present before setup_solver',
+             '  setup : List String     -- instance attributes bound by setup_solver',
+             '  reads : List String     -- data attributes of the object read during the traced _run',
+             '  writes : List String    -- attributes created, re-bound or deleted during the traced _run',
+             '  inplace : List String   -- attributes holding an array whose elements changed during the traced _run',
+             '  leaves : Nat            -- number of execution paths of the traced call (all of them are observed)',
+             '  deriving Repr, DecidableEq', '', 'def rows : List Row := [']
+        o.append(',\n'.join('  { cls := "%s", params := %s, base := %s, setup := %s, reads := %s, writes := %s, inplace := %s, leaves := %d }'
+                            % (r['cls'], lst(r['params']), lst(r['base']), lst(r['setup']), lst(r['reads']), lst(r['writes']),
+                               lst(r['inplace']), r['leaves']) for r in self.rows))
+        o += [']', '', 'end EPV.Gen.RadRunEffects', '']
+        return '\n'.join(o)
+
+    def describe(self):
+        return {'name': self.name, 'source': RSW + ':{ED,nED,Sn,ie}_Solver.setup_solver / _run [instrumented symbolic call]',
+                'params': [], 'pvars': [], 'tvar': None, 'fields': [], 'conds': {}, 'leaves': [], 'consts': {}, 'rows': self.rows}
+
+
+@target('RadRunEffects', ['rad2', 'radshock2'], deriv=None, floats=False)
+def _run_effects():
+    return RunEffectsModel()
+
+
+# =====================================================================================
+# a node (P, M) of a nED-type profile: the closed forms from which `splice_precursor_and_relaxation` assembles the
+# stored arrays (Tm, Tr, Speed, Density, Pressure, Fr), and the far-field reference of `dPdx`
+# =====================================================================================
+RAD_NED = {'RadNED': 'nED', 'RadNEDLM': 'LM_nED'}
+NED_OUTS = ['Density', 'Tm', 'Speed', 'Pressure', 'Er', 'Tr', 'Fr', 'sigma_t', 'dPdx', 'F2', 'beta0', 'Em0', 'F20', 'Mach']
+
+
+def _rad_ned(name):
+    problem = RAD_NED[name]
+
+    @target(name, ['rad2', 'radshock2'])
+    def _b():
+        def run():
+            F = importlib.import_module(RSN)
+            s, prob, prof = _build_wrapper('nED_Solver', dict(problem=problem))
+            # the constants the right-hand sides read are free symbols here; RadConstNED / RadConstLM say what the real
+            # constructor chain puts there for a user's rho0, Tref, Cv, gamma (Props/C12/Constants.lean)
+            prof.P0, prof.C0 = S('P0'), S('C0')
+            P, M = S('P'), S('M')
+            # the reference state of dPdx, as coded there (upstream equilibrium ahead of the sonic point, downstream behind)
+            Meq = sym.sym_where(M > 1, prof.M0, prof.M1)
+            Preq = sym.sym_where(M > 1, prof.Pr0, prof.Pr1)
+            return (F.mat_density(P, M, prof), F.mat_temp(P, M, prof), F.mat_speed(P, M, prof), F.mat_pres(P, M, prof),
+                    F.rad_energy_density(P, M, prof), F.rad_temp(P, M, prof), F.rad_flux(P, M, prof), F.sigma_t(P, M, prof),
+                    F.dPdx(P, M, prof), F.rad_flux2(P, M, prof),
+                    F.mat_beta(Preq, Meq, prof), F.mat_total_energy(Preq, Meq, prof), F.rad_flux2(Preq, Meq, prof),
+                    prof.M0 / F.mat_density(P, M, prof) / F.mat_temp(P, M, prof) ** 0.5)
+        return trace_func(name, run, [], NED_OUTS, modules=[RSW, RSP, RSU, RSN], extra_shims=_const_shims(),
+                          source='%s: mat_density, mat_temp, mat_speed, mat_pres, rad_energy_density, rad_temp, rad_flux, dPdx [problem %s] '
+                                 'on a profile object built by the real constructor chain' % (RSN, problem))
+    return _b
+
+
+for _n in RAD_NED:
+    _rad_ned(_n)
+
+
+# =====================================================================================
+# a node (E, M) of a flux-limited profile (fnctn_FLD) with the local flux limiter (Lambda, R) symbolic: FINDING
+# C12.radshock.fld_energy_flux (the far-field reference of dPdx is formed with the LOCAL limiter)
+# =====================================================================================
+RSL = 'exactpack.solvers.radshocks.fnctn_FLD'
+FLD_OUTS = ['Density', 'Tm', 'Speed', 'Pressure', 'Pr', 'Fr', 'sigma_t', 'dPdx', 'F2', 'beta0', 'Em0', 'F20']
+
+
+@target('RadFLD', ['rad2', 'radshock2'])
+def _rad_fld():
+    def run():
+        F = importlib.import_module(RSL)
+        s, prob, prof = _build_wrapper('nED_Solver', dict(problem='FLD_LP'))
+        prof.P0, prof.C0 = S('P0'), S('C0')
+        prof.Lambda, prof.R = S('Lam'), S('R')        # what `dEdx` left there for this node
+        En, M = S('E'), S('M')
+        Meq = sym.sym_where(M > 1, prof.M0, prof.M1)
+        Ereq = sym.sym_where(M > 1, prof.Er0, prof.Er1)
+        siga = prof.sigA * F.mat_density(En, M, prof) ** prof.expDensity_abs * F.mat_temp(En, M, prof) ** prof.expTemp_abs
+        sigs = prof.sigS * F.mat_density(En, M, prof) ** prof.expDensity_scat * F.mat_temp(En, M, prof) ** prof.expTemp_scat
+        return (F.mat_density(En, M, prof), F.mat_temp(En, M, prof), F.mat_speed(En, M, prof), F.mat_pres(En, M, prof),
+                (prof.Lambda + (prof.Lambda * prof.R) ** 2) * En, F.rad_flux(En, M, prof), siga + sigs,
+                F.dPdx(En, M, prof), F.rad_flux2(En, M, prof),
+                F.mat_beta(Ereq, Meq, prof), F.mat_total_energy(Ereq, Meq, prof), F.rad_flux2(Ereq, Meq, prof))
+    return trace_func('RadFLD', run, [], FLD_OUTS, modules=[RSW, RSP, RSU, RSL], extra_shims=_const_shims(),
+                      source=RSL + ': mat_density, mat_temp, mat_speed, mat_pres, rad_flux, dPdx with the local flux limiter '
+                                   '(Lambda, R) symbolic, on a profile object built by the real constructor chain [problem FLD_LP]')
